@@ -178,11 +178,15 @@ func TestBounded(t *testing.T) {
 		"rand9":   vp.Names(9, rng),
 		"rand60":  vp.Names(60, rng),
 		"rand300": vp.Names(300, rng),
+		// two distinct names with the SAME 64-bit murmur3 digest (f5016fd5450e4616): no depth of
+		// sharding separates them, so the sharded builder must give the same outcome (today: the
+		// same "too deep" error) whichever comes first -- never keep one and drop the other
+		"fullcollision": append(vp.Names(9, rng), "report-2024.docx", "]?A?U>}>0,raHb:v"),
 	}
 	if vp.Thorough() {
 		sets["rand2000"] = vp.Names(2000, rng)
 	}
-	for _, label := range []string{"one", "collide", "rand9", "rand60", "rand300", "rand2000"} {
+	for _, label := range []string{"one", "collide", "fullcollision", "rand9", "rand60", "rand300", "rand2000"} {
 		names, ok := sets[label]
 		if !ok {
 			continue
@@ -206,7 +210,7 @@ func TestBounded(t *testing.T) {
 		}
 		for _, v := range variants {
 			base := v.build(ents, vp.NewStore().LS())
-			if base.err != "" {
+			if base.err != "" && label != "fullcollision" {
 				t.Fatalf("%s/%s: %s", label, v.name, base.err)
 			}
 			id := fmt.Sprintf("dir:%s,%s", v.name, label)
